@@ -35,11 +35,12 @@ fn show_layer(l: &Layer) -> String {
     format!("os={} kc={} to=- de=- sk=- sa=- wa=- env={}", l.os.map_or("-".into(), |o| o.to_string()), l.kc.map_or("-".into(), |k| (k as u8).to_string()),
         if l.env.is_empty() { "-".to_string() } else { l.env.iter().map(|(k, v)| format!("{}:{}", k, v)).collect::<Vec<_>>().join(",") })
 }
-fn render(d: &Doc, di: usize, marks: &Path, prepend: &[String], append: &[String]) -> String {
+fn render(d: &Doc, di: usize, marks: &Path, prepend: &[String], append: &[String], shell: Option<&str>) -> String {
     let mut s = String::new();
     let items = yaml_items(&d.defaults);
-    if !items.is_empty() || !prepend.is_empty() || !append.is_empty() {
+    if !items.is_empty() || !prepend.is_empty() || !append.is_empty() || shell.is_some() {
         s.push_str("---\n");
+        if let Some(sh) = shell { s.push_str(&format!("shell: {}\n", sh)); }
         if !items.is_empty() { s.push_str("defaults:\n"); for i in &items { s.push_str(&format!("  {}\n", i)); } }
         if !prepend.is_empty() { s.push_str(&format!("prepend: [{}]\n", prepend.join(", "))); }
         if !append.is_empty() { s.push_str(&format!("append: [{}]\n", append.join(", "))); }
@@ -50,7 +51,7 @@ fn render(d: &Doc, di: usize, marks: &Path, prepend: &[String], append: &[String
         let items = yaml_items(t);
         s.push_str(&format!("# {}\n\n", id));
         if items.is_empty() { s.push_str("```scrut\n"); } else { s.push_str(&format!("```scrut {{{}}}\n", items.join(", "))); }
-        s.push_str(&format!("$ printf 'O\\r\\n'; printf 'E\\r\\n' >&2; echo \"{}|${{VA-unset}}|${{VB-unset}}|${{VC-unset}}|${{VD-unset}}\" >> {}\nzzz never matches\n```\n\n", id, marks.display()));
+        s.push_str(&format!("$ printf 'O\\r\\n'; printf 'E\\r\\n' >&2; echo \"{}|${{VA-unset}}|${{VB-unset}}|${{VC-unset}}|${{VD-unset}}|${{SVH_SHELL-default}}\" >> {}\nzzz never matches\n```\n\n", id, marks.display()));
     }
     s
 }
@@ -70,16 +71,30 @@ fn run_case(r: &mut Rng, scrut: &str, base: &Path) -> String {
     let name = |i: usize, d: &Doc| format!("{}{}.md", match d.role { 'm' => "main", 'p' | 'P' => "pre", _ => "app" }, i);
     let fm_pre: Vec<String> = docs.iter().enumerate().filter(|(_, d)| d.role == 'p').map(|(i, d)| name(i, d)).collect();
     let fm_app: Vec<String> = docs.iter().enumerate().filter(|(_, d)| d.role == 'a').map(|(i, d)| name(i, d)).collect();
+    // the `shell` key: two wrapper shells that name themselves in a variable and hand over to bash; the command line names one, the
+    // main document another (or neither).  A prepended / appended document may name one too: the run has ONE shell, that of the main layers
+    let wrapper = |n: &str| -> String {
+        let p = dir.path().join(format!("sh{}", n));
+        std::fs::write(&p, format!("#!/bin/bash\nexport SVH_SHELL={}\nexec /bin/bash \"$@\"\n", n)).unwrap();
+        use std::os::unix::fs::PermissionsExt;
+        std::fs::set_permissions(&p, std::fs::Permissions::from_mode(0o755)).unwrap();
+        p.to_string_lossy().to_string()
+    };
+    let (sh_a, sh_b, sh_c) = (wrapper("A"), wrapper("B"), wrapper("C"));
+    let cli_shell = if r.chance(1, 4) { Some("A") } else { None };
+    let doc_shell = if r.chance(1, 3) { Some("B") } else { None };
+    let other_shell = r.chance(1, 3);
     for (i, d) in docs.iter().enumerate() {
-        let text = if d.role == 'm' { render(d, i, &marks, &fm_pre, &fm_app) } else { render(d, i, &marks, &[], &[]) };
+        let text = if d.role == 'm' { render(d, i, &marks, &fm_pre, &fm_app, doc_shell.map(|_| sh_b.as_str())) } else { render(d, i, &marks, &[], &[], if other_shell { Some(sh_c.as_str()) } else { None }) };
         std::fs::write(dir.path().join(name(i, d)), text).unwrap();
     }
     let cli = Layer { os: match r.below(4) { 0 => Some(0), 1 => Some(2), _ => None }, kc: match r.below(4) { 0 => Some(true), 1 => Some(false), _ => None }, env: vec![] };
     let tmpdir = dir.path().join("tmp"); std::fs::create_dir_all(&tmpdir).unwrap();
     let mut cmd = Command::new(scrut);
-    cmd.current_dir(dir.path()).env("TMPDIR", &tmpdir).env("NO_COLOR", "1").env_remove("VA").env_remove("VB").env_remove("VC").env_remove("VD")
+    cmd.current_dir(dir.path()).env("TMPDIR", &tmpdir).env("NO_COLOR", "1").env_remove("SVH_SHELL").env_remove("VA").env_remove("VB").env_remove("VC").env_remove("VD")
         .arg("test").arg("-r").arg("json").arg("--log-level").arg("error");
     if compat { cmd.arg("--cram-compat"); }
+    if cli_shell.is_some() { cmd.arg("--shell").arg(&sh_a); }
     match cli.os { Some(0) => { cmd.arg("--no-combine-output"); } Some(2) => { cmd.arg("--combine-output"); } _ => {} }
     match cli.kc { Some(true) => { cmd.arg("--keep-output-crlf"); } Some(false) => { cmd.arg("--no-keep-output-crlf"); } _ => {} }
     cmd.arg(name(0, &docs[0]));
@@ -108,7 +123,7 @@ fn run_case(r: &mut Rng, scrut: &str, base: &Path) -> String {
         }
     }
     let marks_s = std::fs::read_to_string(&marks).unwrap_or_default().split_whitespace().collect::<Vec<_>>().join(",");
-    format!("Q {}{}|{}|exit={}|{}|{}", show_layer(&cli), if compat { " cc=1" } else { "" },
+    format!("Q {} sh={}{}{}|{}|exit={}|{}|{}", show_layer(&cli), cli_shell.unwrap_or("-"), doc_shell.unwrap_or("-"), if compat { " cc=1" } else { "" },
         docs.iter().map(|d| format!("{}:{}:{}", d.role, show_layer(&d.defaults), d.tests.iter().map(show_layer).collect::<Vec<_>>().join("/"))).collect::<Vec<_>>().join(";"),
         code, if seen.is_empty() { "-".to_string() } else { seen.join(",") }, if marks_s.is_empty() { "-".to_string() } else { marks_s })
 }
